@@ -350,15 +350,24 @@ def wl_predict(ctx, idx, rng):
     if pred is None:
         return
     subset = False
-    if len(entries) > 2 and rng.random() < 0.25:
+    parent = None
+    if len(entries) > 2 and rng.random() < 0.35:
         sel = sorted(int(i) for i in rng.choice(len(entries), size=int(rng.integers(1, len(entries))), replace=False))
-        with probes.quiet():
-            tm = np.array([float(e.tmid_days) for e in model.entries])
+        order = int(rng.integers(3))        # 0: subset of a fresh parent, 1: parent used first, 2: subset used first, then the parent again
+        REGISTRY[id(pred)] = model
+        if order == 1:
+            try:
+                pred.intervals
+                pred(pick_time(rng, model, "inside", "utc"))
+            except Exception:
+                pass
         sub, exc = ctx.call("from_polyco", lambda: pred[sel], where="predictor[subset]")
         if exc is None:
+            parent, parent_model = pred, model
             pred = sub
-            model = Model([model.entries[i] for i in sel])
+            model = Model([parent_model.entries[i] for i in sel])
             subset = True
+            desc["subset_order"] = order
     REGISTRY[id(pred)] = model
     desc.update(via=via, subset=subset)
     kind = TIME_KINDS[idx % len(TIME_KINDS)]
@@ -400,7 +409,19 @@ def wl_predict(ctx, idx, rng):
         pred.intervals
     except Exception:
         pass
-    ctx.bucket(desc["nent"], desc["ncoeff"] % 3, desc["spacing"], kind, method, via)
+    if parent is not None:
+        # a subset must not share state with its parent: probe the hole left by the dropped entries, then the parent again
+        dropped = [e for e in parent_model.entries if e not in model.entries]
+        try:
+            if dropped:
+                pred(dropped[int(rng.integers(len(dropped)))].tmid)          # judged: must raise unless another kept entry covers it
+            parent.intervals
+            parent(pick_time(rng, parent_model, "inside", "utc"))
+            parent(dropped[0].tmid) if dropped else None
+        except Exception:
+            pass
+        REGISTRY.pop(id(parent), None)
+    ctx.bucket(desc["nent"], desc["ncoeff"] % 3, desc["spacing"], kind, method, via, desc.get("subset_order", "-"))
     REGISTRY.pop(id(pred), None)
 
 
